@@ -83,6 +83,20 @@ func init() {
 		it.inputs = append(it.inputs, &InputVar{Tag: strArg(it, args[0]), Kind: "choice", W: 64, Conc: true, Value: v})
 		return it.ts.Const(64, v), stOK
 	})
+	// vPick32(tag, values...): a symbolic value constrained to the given set; no case split
+	reg("harness.vPick32", func(it *Interp, g *G, fr *Frame, args []Value, site ssa.Instruction) (Value, stepResult) {
+		sl, _ := args[1].(*Slice)
+		if isNilValue(sl) || sl.len == 0 {
+			it.unsupported("vPick32 without values")
+		}
+		t := it.freshInput(strArg(it, args[0]), "u32", 32)
+		c := it.ts.ff
+		for i := 0; i < sl.len; i++ {
+			c = it.ts.Or(c, it.ts.Eq(t, sl.obj.get(sl.off+i).(*Term)))
+		}
+		it.pc = append(it.pc, c)
+		return t, stOK
+	})
 	reg("harness.vBytes", func(it *Interp, g *G, fr *Frame, args []Value, site ssa.Instruction) (Value, stepResult) {
 		tag := strArg(it, args[0])
 		n := int(constArg(it, args[1]))
